@@ -103,7 +103,8 @@ def run(ctx):
         distinct_nontrivial=fw.distinct_nontrivial(cases),
         rule="sessions = New + <=25 calls; 394 sessions enumerated exhaustively whatever the seed (every ordered pair of check kinds at plan and at block level, "
              "every kind of call at each of the 5 cursor positions, every invalid ChecksType at each position, every ordered pair first misuse kind x second misuse kind of the 17 kinds - 289 sessions - "
-             "in which the second misuse meets a builder already holding the first one's error); then random families: 25% all-valid (valid prefix, Plan(), sometimes calls after it, sometimes Reset + second epoch), "
+             "in which the second misuse meets a builder already holding the first one's error); then several builders alive at once with interleaved calls, each compared with the model of its own call list and no plan pointer emitted twice "
+             "(family multi: the 6 orders of {a emits, a is Reset, b is created, b's first Add*} x 3 shapes, plus n/12 random interleavings of 2-3 ordinary sessions); then random families: 25% all-valid (valid prefix, Plan(), sometimes calls after it, sometimes Reset + second epoch), "
              "60% the same with 1-3 misuses, each of a uniformly chosen kind (later ones biased to nil arguments) inserted at a uniformly chosen applicable position, 5% invalid New, "
              "10% unbiased random call streams; evaluations = calls executed on the real builder and compared; "
              "distinct = distinct (session, observation) terms; non-trivial = >=3 calls and (a misuse or an emitted plan of >=4 objects)",
@@ -113,6 +114,7 @@ def run(ctx):
         sessions_needing_B2=len(need_b2),
         distribution=dict(family=fw.histogram(c["kind"] for c in cases),
                           injected_misuse=fw.histogram(c["dist"]["injected"] or "none" for c in cases),
+                          multi_builder_cases=fw.histogram(c["dist"]["injected"] for c in cases if c["kind"] == "multi"),
                           second_misuse=fw.histogram(c["dist"].get("second_misuse") or "none" for c in cases),
                           misuses_injected=fw.histogram(c["dist"].get("misuses_injected", 0) for c in cases),
                           first_error_observed=fw.histogram(c["dist"]["first_error"] for c in cases),
